@@ -67,6 +67,8 @@ def shards(tier, seed, scale=1.0):
     L = 8 if tier == 'quick' else 32
     for s in range(L):
         out.append({'name': 'loose-%d' % s, 'kind': 'loose', 'shard': s, 'of': L, 'budget': 3 if tier == 'quick' else 4, 'nlen': 3})
+    for s in range(2):
+        out.append({'name': 'sets-%d' % s, 'kind': 'sets', 'shard': s, 'of': 2})
     out.append({'name': 'exclude', 'kind': 'exclude', 'seed': seed, 'n': int((400 if tier == 'quick' else 6000) * scale)})
     out.append({'name': 'fs', 'kind': 'fs', 'seed': seed, 'n': int((150 if tier == 'quick' else 2500) * scale)})
     return out
@@ -86,6 +88,8 @@ def run_shard(desc):
         return run_pathlib(desc)
     if k == 'loose':
         return c01.run_loose(desc, PROPERTY, select_fn, dots=(False,))
+    if k == 'sets':
+        return c02.run_sets(desc, PROPERTY, select_path)
     if k == 'exclude':
         return run_exclude(desc)
     if k == 'fs':
@@ -173,6 +177,7 @@ def run_exclude(desc):
 HIDDEN_TREE = [
     ('f', 'a'), ('f', '.a'), ('f', 'b.a'), ('d', 'd'), ('f', 'd/a'), ('f', 'd/.a'), ('d', '.d'), ('f', '.d/a'), ('f', '.d/.a'),
     ('d', 'd/.e'), ('f', 'd/.e/a'), ('d', 'd/e'), ('f', 'd/e/.x'), ('f', '..a'), ('f', '.'.join(['', '', '']) + 'b'), ('l', '.l', 'd'),
+    ('l', 'd/.lk', 'e'), ('l', 'd/e/.up', '../e') if False else ('f', 'd/e/b'),
 ]
 
 
@@ -184,9 +189,11 @@ def run_fs(desc):
     out = Outcome()
     armed = desc['armed']
     seg = A.st_seq(max_budget=4, max_depth=2, max_alts=2, alphabet='ab.d', posix=False)
-    pat = st.lists(st.one_of(seg, seg, seg, st.just(A.GS)), min_size=1, max_size=3)
+    pat = st.lists(st.one_of(seg, seg, seg, st.just(A.GS), st.just(A.GSL)), min_size=1, max_size=3)
     cfgs = [{}, {'globstar': True}, {'globstar': True, 'matchbase': True}, {'matchbase': True}, {'nodotdir': True},
-            {'globstar': True, 'scandotdir': True}, {'scandotdir': True}, {'dot': True, 'scandotdir': True}, {'dot': True, 'globstar': True}]
+            {'globstar': True, 'scandotdir': True}, {'scandotdir': True}, {'dot': True, 'scandotdir': True}, {'dot': True, 'globstar': True},
+            {'globstar': True, 'follow': True}, {'globstarlong': True}, {'globstarlong': True, 'follow': True, 'matchbase': True},
+            {'globstar': True, 'follow': True, 'matchbase': True}]
     with util.temp_root() as root:
         util.build_tree(root, HIDDEN_TREE)
 
@@ -199,7 +206,7 @@ def run_fs(desc):
                 return
             pp = A.PathPat(False, segs, False, 1)
             text = A.render_path(pp)
-            fl = lang.gl_flags(cfg) | (G.SCANDOTDIR if cfg.get('scandotdir') else 0)
+            fl = lang.gl_flags(cfg) | (G.SCANDOTDIR if cfg.get('scandotdir') else 0) | (G.FOLLOW if cfg.get('follow') else 0)
             try:
                 with util.watchdog(5), util.ScandirCounter(4000):
                     if api == 0:
@@ -215,7 +222,7 @@ def run_fs(desc):
                 out.stats['watchdog_skipped'] += 1
                 return
             kw = dict(dot=bool(cfg.get('dot')), globstar=bool(cfg.get('globstar')), matchbase=bool(cfg.get('matchbase')),
-                      nodotdir=bool(cfg.get('nodotdir')) or not cfg.get('scandotdir'))
+                      globstarlong=bool(cfg.get('globstarlong')), nodotdir=bool(cfg.get('nodotdir')) or not cfg.get('scandotdir'))
             sel = select_path(cfg)
             hidden_seen = False
             for r in res:
